@@ -23,6 +23,11 @@ structure StoreSt where
   /-- the reference list is still a meaningful oracle (plain rules only, never a rule twice): used
       outside the theorem's hypothesis only to search for a failing input (`?` observations) -/
   specOk : Bool := true
+  /-- the index points past the end of the list (only reachable through finding D12: an update
+      onto a listed rule followed by priority shifts of the two equal rules).  Go then panics with a
+      slice-bounds error in places the model's total list functions do not mirror: the rest of the
+      case is outside the modelled fragment (`none`). -/
+  dead : Bool := false
 
 def showIndex (ix : Index) : String :=
   let entries := ix.map (fun (k, v) => (encodeTok k, v))
@@ -61,7 +66,9 @@ def splitTwo (sep : String) (ts : List String) : Option (List String × List Str
   | [a, b] => some (a, b)
   | _ => none
 
-def storeOp (st : StoreSt) : List String → Option (StoreSt × String × String × Bool)
+def indexOutOfRange (s : Store) : Bool := s.index.any (fun kv => kv.2 ≥ s.policy.length)
+
+def storeOpLive (st : StoreSt) : List String → Option (StoreSt × String × String × Bool)
   | ["case", "store", n, prio] => do
       let n ← n.toNat?
       let p ← (if prio == "-" then some none else prio.toNat?.map some)
@@ -104,5 +111,15 @@ def storeOp (st : StoreSt) : List String → Option (StoreSt × String × String
       | some rs => pure (st, encodeRules rs, encodeRules (st.spec.filter (filterMatches fi vs)), inWF)
       | none => pure (st, "panic", "-", false)
   | _ => none
+
+def storeOp (st : StoreSt) (ts : List String) : Option (StoreSt × String × String × Bool) :=
+  match ts with
+  | "case" :: _ => storeOpLive st ts
+  | _ =>
+    if st.dead then some (st, "none", "-", false)
+    else
+      match storeOpLive st ts with
+      | some (st', m, s, wf) => some ({ st' with dead := indexOutOfRange st'.store }, m, s, wf)
+      | none => none
 
 end Casbin.Driver
